@@ -11,18 +11,18 @@ import (
 
 // C07: floating-point API = integer API on quantised input (exact comparison, Go vs Go).
 type dCase struct {
-	Fn     string     `json:"fn"`
+	Fn     string      `json:"fn"`
 	A      clip.PathsD `json:"a"`
 	B      clip.PathsD `json:"b"`
-	Prec   int        `json:"precision"`
-	CT     int        `json:"clip_type"`
-	FR     int        `json:"fill_rule"`
-	Delta  float64    `json:"delta"`
-	ArcTol float64    `json:"arc_tolerance"`
-	JT     int        `json:"join_type"`
-	ET     int        `json:"end_type"`
-	Rect   [4]float64 `json:"rect"`
-	Flag   bool       `json:"flag"`
+	Prec   int         `json:"precision"`
+	CT     int         `json:"clip_type"`
+	FR     int         `json:"fill_rule"`
+	Delta  float64     `json:"delta"`
+	ArcTol float64     `json:"arc_tolerance"`
+	JT     int         `json:"join_type"`
+	ET     int         `json:"end_type"`
+	Rect   [4]float64  `json:"rect"`
+	Flag   bool        `json:"flag"`
 }
 
 var dFns = []string{"BooleanOpPathsD", "UnionPathsD", "engineD", "BooleanOpPolyTreeD", "InflatePathsD", "MinkowskiSumD", "MinkowskiDiffD", "RectClipPathsD", "RectClipLinesPathsD", "TrimCollinearD", "precision-range"}
